@@ -511,7 +511,7 @@ def umHandle (ws : List String) : Option String :=
     | some ty, some ops =>
       let s := ops.foldl step (new ty)
       let gets := (s.values.map fun (k, v) => s!"{k}={v}")
-      some s!"ok {hexOf (write s)} size={size s} blocks={s.nblocks} values={" ".intercalate gets}"
+      some s!"ok {hexOf (write s)} size={size s} blocks={s.nblocks} type={if sent s 2 then 1 else 0} values={" ".intercalate gets}"
     | _, _ => some "bad-op"
   | _ => none
 
